@@ -72,6 +72,10 @@ def _update_parameters_and_initial_conditions[T](
     # Results keep a reference to the model and read from it lazily, so every row needs its own
     model = copy.deepcopy(model)
     pd = pars.to_dict()
+    if unknown := [k for k in pd if k not in model._variables and k not in model._parameters]:  # noqa: SLF001
+        # Like update_parameters / update_variables of a single run
+        msg = f"{unknown} not found in variables or parameters"
+        raise KeyError(msg)
     model.update_variables({k: v for k, v in pd.items() if k in model._variables})  # noqa: SLF001
     model.update_parameters({k: v for k, v in pd.items() if k in model._parameters})  # noqa: SLF001
     return fn(model)
